@@ -91,12 +91,14 @@ def reflinks_layer(ck):
     (one defined label, every other label undefined; openers, deactivation of outer links, labels that hold brackets, what
     follows the closing bracket): every text up to 7 (quick) / 8 (thorough) characters over {a, [, ], !, space}, sharded by the
     first character; the real parser renders text + blank line + the definition."""
-    cfg = 'RefLinksQ.cfg' if ck.tier == 'quick' else 'RefLinksT.cfg'
+    t = 'Q' if ck.tier == 'quick' else 'T'
+    # second alphabet {a, [, ], (, )}: the plainest inline destination (balanced parentheses) is tried first, then the reference forms
+    jobs = [('RefLinks%s.cfg' % t, sh) for sh in ['a', '[', ']', '!']] + [('RefLinksP%s.cfg' % t, sh) for sh in ['a', '[', ']', '(', ')']]
 
-    def one(sh):
-        return core.tlc('RefLinks', cfg, workers=1, env={'SHARD': sh}, timeout=3000, heap='2g')
+    def one(job):
+        return core.tlc('RefLinks', job[0], workers=1, env={'SHARD': job[1]}, timeout=3000, heap='2g')
     with ThreadPoolExecutor(max_workers=core.NCPU) as ex:
-        results = list(ex.map(one, ['a', '[', ']', '!']))
+        results = list(ex.map(one, jobs))
     m = core.impl()
     n = links = skipped = 0
     for res in results:
@@ -121,7 +123,7 @@ def reflinks_layer(ck):
             if got != want:
                 ck.violation('LinkRefs.html: source=%r expected=%r observed=%r' % (src, want, got),
                              {'input': src, 'expected': htmlnorm.normalize(want), 'observed': htmlnorm.normalize(got), 'clause': 'LinkRefs.html', 'classes': []})
-    if n < 50000 or links < 3000:
+    if n < 120000 or links < 8000:
         raise core.MachineryError('RefLinks.tla exported only %d texts (%d with a link or image)' % (n, links))
     ck.extra['reflinks_texts'] = n
     ck.extra['reflinks_texts_with_reference'] = links
